@@ -604,6 +604,9 @@ impl World {
             }
             let bb = b.clone().unwrap_or_default();
             if let Some(a) = &a {
+                if let Some((k, e)) = a.entries.iter().find(|(_, e)| e.version > a.mv) {
+                    return Err(mk("C18.corrupt", format!("n{p} copy of {} holds {k:?}@{} above its max version {} after catch-up", x.short(), e.version, a.mv)));
+                }
                 if (a.gc, a.mv) < (bb.gc, bb.mv) {
                     return Err(mk("C18.regressed", format!("n{p} copy of {}: ({}, {}) -> ({}, {})", x.short(), bb.gc, bb.mv, a.gc, a.mv)));
                 }
